@@ -15,6 +15,7 @@ VERIF = os.path.dirname(os.path.dirname(os.path.abspath(__file__)))
 KNOWN_PATH = os.path.join(VERIF, "selftest", "known_functions.json")
 MAX_BLOCKS = 600
 MAX_ROUNDS = 5
+LOCAL_RENAMES = []
 
 
 def load_known():
@@ -29,6 +30,27 @@ def load_signatures():
         return {}
     with open(KNOWN_PATH) as f:
         return json.load(f).get("signatures", {})
+
+
+def load_adts():
+    if not os.path.exists(KNOWN_PATH):
+        return {}
+    with open(KNOWN_PATH) as f:
+        return json.load(f).get("adts", {})
+
+
+def load_files():
+    if not os.path.exists(KNOWN_PATH):
+        return {}
+    with open(KNOWN_PATH) as f:
+        return json.load(f).get("files", {})
+
+
+def load_vars():
+    if not os.path.exists(KNOWN_PATH):
+        return {}
+    with open(KNOWN_PATH) as f:
+        return json.load(f).get("vars", {})
 
 
 def signature(raw):
@@ -120,6 +142,8 @@ def apply(data, known=None):
     for crate, d in data.items():
         for raw in d["fns"]:
             by_id[raw["id"]] = raw
+    from . import renames as _ren
+    LOCAL_RENAMES[:] = _ren.normalize_locals(data, load_vars())
     unknown = {fid for fid, raw in by_id.items() if fid not in known and raw.get("kind") != "Closure" and "{closure" not in fid}
     if not unknown:
         return 0
@@ -178,6 +202,8 @@ def apply(data, known=None):
         unknown = {fid for fid, raw in by_id.items() if fid not in known and raw.get("kind") != "Closure" and "{closure" not in fid}
         if not unknown:
             return 0
+    # renamed local variables and parameters of known functions get their old names back (rules may name a variable)
+    LOCAL_RENAMES.extend(_ren.normalize_locals(data, load_vars()))
     # direct recursion / cycles among unknown functions: never inline those
     calls = {}
     for fid in unknown:
@@ -245,5 +271,8 @@ if __name__ == "__main__":
     with open(KNOWN_PATH, "w") as f:
         json.dump({"_comment": "function ids (and signatures) of the tree the rules were written against; functions not listed here are "
                                "inlined into their callers before the rules run, moved or renamed ones are given their old id back "
-                               "(rqverif/inline.py)", "tree_hash": info.get("tree_hash"), "functions": ids, "signatures": sigs}, f, indent=0)
+                               "(rqverif/inline.py)", "tree_hash": info.get("tree_hash"), "functions": ids, "signatures": sigs,
+                   "adts": __import__("rqverif.renames", fromlist=["x"]).reference_of(data),
+                   "vars": __import__("rqverif.renames", fromlist=["x"]).reference_vars(data),
+                   "files": __import__("rqverif.renames", fromlist=["x"]).reference_files(data)}, f, indent=0)
     print("wrote", KNOWN_PATH, len(ids))
